@@ -366,7 +366,7 @@ def _cases_of(req, li):
 
 
 def generate(rng, tier, mult):
-    n = (85 if tier == "quick" else 1200) * mult
+    n = (85 if tier == "quick" else 3000) * mult
     out = []
     for r in corner_requests():
         for li in (True, False):
